@@ -162,4 +162,54 @@ theorem orPanic_eq_panic {ε : Type} (o : Option Bytes) :
 theorem orPanic_ne_err {ε : Type} (o : Option Bytes) (e : ε) : (orPanic o : Res ε) ≠ .err e := by
   cases o <;> simp [orPanic]
 
+/-! ### addresses -/
+
+/-- well-formed address: 4 resp. 16 octets. -/
+def Ip.WF : Ip → Prop
+  | .v4 o => o.length = 4
+  | .v6 o => o.length = 16
+
+theorem v4Prefix_length : v4Prefix.length = 12 := rfl
+
+theorem ipToBytes_length (ip : Ip) (h : ip.WF) : (ipToBytes ip).length = 16 := by
+  cases ip <;> simp_all [ipToBytes, Ip.WF, v4Prefix_length]
+
+theorem isV4Form_iff (b : Bytes) : isV4Form b = true ↔ b.take 12 = v4Prefix := by
+  simp [isV4Form]
+
+theorem isV4Form_v4 (o : Bytes) : isV4Form (v4Prefix ++ o) = true := by
+  rw [isV4Form_iff, List.take_left' v4Prefix_length]
+
+theorem bytesToIp_isV4 (b : Bytes) : (bytesToIp b).isV4 = isV4Form b := by
+  unfold bytesToIp
+  cases h : isV4Form b <;> simp [Ip.isV4]
+
+theorem bytesToIp_WF (b : Bytes) (h : b.length = 16) : (bytesToIp b).WF := by
+  unfold bytesToIp
+  cases hv : isV4Form b <;> simp [Ip.WF, h]
+
+/-- every 16-byte block survives `bytes_to_ip` followed by `ip_to_bytes` … -/
+theorem ipToBytes_bytesToIp (b : Bytes) : ipToBytes (bytesToIp b) = b := by
+  unfold bytesToIp
+  cases hv : isV4Form b with
+  | false => simp [ipToBytes]
+  | true =>
+    simp only [if_true, ipToBytes]
+    rw [← (isV4Form_iff b).mp hv, List.take_append_drop]
+
+/-- … but an address survives `ip_to_bytes` followed by `bytes_to_ip` only if it is not an
+    IPv4-mapped IPv6 address. -/
+theorem bytesToIp_ipToBytes (ip : Ip) (h : D_v4mapped ip = false) : bytesToIp (ipToBytes ip) = ip := by
+  cases ip with
+  | v4 o =>
+    simp only [ipToBytes, bytesToIp, isV4Form_v4, if_true]
+    rw [List.drop_left' v4Prefix_length]
+  | v6 o =>
+    simp only [D_v4mapped] at h
+    simp [ipToBytes, bytesToIp, h]
+
+theorem bytesToIp_ipToBytes_mapped (o : Bytes) (h : isV4Form o = true) :
+    bytesToIp (ipToBytes (.v6 o)) = .v4 (o.drop 12) := by
+  simp [ipToBytes, bytesToIp, h]
+
 end Crypt
